@@ -41,7 +41,27 @@ var knownPanics = []knownPanic{
 		req := &gpb.SetRequest{Update: []*gpb.Update{{Path: lp, Val: ll}, {Path: lp, Val: ll}}}
 		return catch(func() { gnmidiff.DiffSetRequest(req, &gpb.SetRequest{}, nil) })
 	}},
+	{F80, func(p *panicInfo) bool {
+		if !strings.Contains(p.Val, "invalid memory address or nil pointer dereference") {
+			return false
+		}
+		switch firstRepoFrame(p.Stack) {
+		case "github.com/openconfig/ygot/ytypes.setNode", "github.com/openconfig/ygot/ytypes.joinPrefixToUpdate", "github.com/openconfig/ygot/ytypes.replacePaths",
+			"github.com/openconfig/ygot/ytypes.UnmarshalNotifications", "github.com/openconfig/ygot/gnmidiff.minimalSetRequestIntent",
+			"github.com/openconfig/ygot/gnmidiff.DiffSetRequestToNotifications", "github.com/openconfig/ygot/ygot.PathToStrings":
+			return true
+		}
+		return false
+	}, func() *panicInfo {
+		v := variantByName("vtu")
+		return catch(func() {
+			ytypes.UnmarshalSetRequest(schemaWith(v, v.NewRoot()), &gpb.SetRequest{Update: []*gpb.Update{nil}})
+		})
+	}},
 }
+
+// F80 is the finding discovered by C20: nil elements inside repeated message fields are dereferenced.
+const F80 = "F80-nil-repeated-element-panic"
 
 // panicID returns the id of the known finding whose signature p carries ("" if none).
 func panicID(p *panicInfo) string {
